@@ -227,8 +227,39 @@ fn junk_documents_never_panic() -> Result<(), String> {
   Ok(())
 }
 
+/// C04 uniqueness over ids under ANOTHER DID: a method (general-purpose, embedded under each relationship, or a bare reference)
+/// whose id lives under a foreign DID still blocks a service with exactly that id - and only that id: the same fragment under
+/// a different DID is a different id.  A refusal leaves the document unchanged; an acceptance round-trips through JSON.
+fn foreign_did_service_method_collisions() -> Result<(), String> {
+  use identity_core::convert::ToJson;
+  let own = DID; let foreign = "did:example:other";
+  let svc_at = |id: &str| identity_document::service::Service::from_json(&format!(r#"{{"id":"{id}","type":"T","serviceEndpoint":"https://x.example/"}}"#)).unwrap();
+  let vm_at = |id: &str| identity_verification::VerificationMethod::from_json(&jwk_method(id.split('#').next().unwrap(), id.split('#').nth(1).unwrap())).unwrap();
+  for holder_did in [own, foreign] {
+    let mid = format!("{holder_did}#shared");
+    // ways the id can be present in the document
+    let mut setups: Vec<(String, CoreDocument)> = vec![];
+    { let mut d = CoreDocument::from_json(&format!(r#"{{"id":"{own}"}}"#)).unwrap(); d.insert_method(vm_at(&mid), MethodScope::VerificationMethod).map_err(|e| e.to_string())?; setups.push(("general-purpose method".into(), d)); }
+    for (rel, name) in RELS { let mut d = CoreDocument::from_json(&format!(r#"{{"id":"{own}"}}"#)).unwrap(); d.insert_method(vm_at(&mid), MethodScope::VerificationRelationship(rel)).map_err(|e| e.to_string())?; setups.push((format!("method embedded under {name}"), d)); }
+    for (_, name) in RELS { setups.push((format!("bare reference under {name}"), CoreDocument::from_json(&format!(r#"{{"id":"{own}","{name}":["{mid}"]}}"#)).map_err(|e| e.to_string())?)); }
+    for (what, d0) in setups {
+      for (sid, must_refuse) in [(mid.clone(), true), (format!("{}#shared", if holder_did == own { foreign } else { own }), false), (format!("{holder_did}#other"), false)] {
+        let mut d = d0.clone();
+        let r = d.insert_service(svc_at(&sid));
+        if r.is_err() != must_refuse { return Err(format!("{what} with id {mid}: insert_service({sid}) {} (expected {})", if r.is_ok() { "accepted" } else { "refused" }, if must_refuse { "refusal" } else { "acceptance" })); }
+        if must_refuse && d != d0 { return Err(format!("{what} with id {mid}: refused insert_service({sid}) changed the document")); }
+        if !must_refuse && d.resolve_service(sid.as_str()).map(|s| s.id().to_string()) != Some(sid.clone()) { return Err(format!("{what}: accepted service {sid} does not resolve")); }
+        let back = CoreDocument::from_json(&d.to_json().map_err(|e| e.to_string())?).map_err(|e| format!("{what} with id {mid}, after insert_service({sid}): own JSON refused: {e}"))?;
+        if back != d { return Err(format!("{what}: JSON round trip differs after insert_service({sid})")); }
+      }
+    }
+  }
+  Ok(())
+}
+
 fn main() {
   std::panic::set_hook(Box::new(|_| {}));
+  w("cd_foreign_did_service_method_collisions", foreign_did_service_method_collisions);
   w("cd_junk_documents_never_panic", junk_documents_never_panic);
   w("cd_mutation_histories_depth4_against_model", mutation_histories_depth4);
   w("cd_resolve_scope_exact", || {
